@@ -12,6 +12,7 @@
    actions, every point at which the connection is cut or a DISCONNECT arrives, every relative timing
    of replies, and every schedule of the ready queue. *)
 From AV Require Import Base.Prelude Model.Close Proofs.CloseProofs Proofs.CloseConnProofs.
+From AV Require Import Model.ClosePair Proofs.ClosePairProofs Proofs.ClosePairThm.
 Local Open Scope nat_scope.
 
 (* Whenever the connection ends - the transport is cut, a DISCONNECT or an invalid packet arrives, the
@@ -87,6 +88,44 @@ Proof.
   vm_compute. repeat split; auto. eexists. split; [left; reflexivity | reflexivity].
 Qed.
 Print Assumptions C09_once_last_old_refuted.
+
+(* The close handshake.  Model/ClosePair.v: BOTH endpoints of one channel (same code) with byte-counted
+   windows and the two FIFO wires, any receive windows >= 1; ops = write n / eof / close / abort / pause /
+   resume on either side, delivery of the oldest packet in either direction, running a queued _cleanup on
+   either side.  For EVERY op list: in any state where nothing is in flight and no callback is queued
+   (quiescent), if both applications have called close() or abort() - in any order, at any time, with any
+   amount of unsent or unread data on either side - then both endpoints are closed / closed, unregistered,
+   and each was cleaned up exactly once (one connection_lost, one unregistration).  In particular the two
+   sides can never be stuck waiting for each other.  (perr = no protocol error was raised; an error ends the
+   connection, which is C09_resolved.) *)
+Theorem C09_handshake : forall wa wb ka kb ops, 1 <= wa -> 1 <= wb ->
+  let p := prun true ops (pair0 wa wb ka kb) in
+  perr p = false -> quiescent p = true -> e_closing (pa p) = true -> e_closing (pb p) = true ->
+  fully_closed (pa p) = true /\ fully_closed (pb p) = true.
+Proof. exact handshake. Qed.
+Print Assumptions C09_handshake.
+
+(* The code before /repo 03faaad (no window credit for receive data that close() discards or drops)
+   violates it: both readers paused, both sides write more than the peer's window, both call close():
+   everything has been delivered, nothing is queued, and both stay send_state close_pending / recv_state
+   open for ever. *)
+Theorem C09_handshake_old_refuted : exists ops,
+  let p := prun false ops (pair0 8 8 true true) in
+  perr p = false /\ quiescent p = true /\ e_closing (pa p) = true /\ e_closing (pb p) = true /\
+  e_ss (pa p) = SClosePending /\ e_ss (pb p) = SClosePending /\ fully_closed (pa p) = false.
+Proof.
+  exists [OPause SA; OPause SB; OWrite SA 20; OWrite SB 20; ODeliver SA; ODeliver SB; OClose SA; OClose SB].
+  vm_compute. repeat split; reflexivity.
+Qed.
+Print Assumptions C09_handshake_old_refuted.
+
+Example C09_example_handshake :
+  let p := prun true [OPause SA; OPause SB; OWrite SA 20; OWrite SB 20; ODeliver SA; ODeliver SB; OClose SA; OClose SB;
+                      ODeliver SA; ODeliver SB; ODeliver SA; ODeliver SB; ODeliver SA; ODeliver SB; ODeliver SA;
+                      ODeliver SB; ODeliver SA; ODeliver SB; ODeliver SA; ODeliver SB; ORun SA; ORun SB]
+                     (pair0 8 8 true true) in
+  perr p = false /\ quiescent p = true /\ fully_closed (pa p) = true /\ fully_closed (pb p) = true.
+Proof. vm_compute. repeat split; reflexivity. Qed.
 
 (* non-vacuity: an orderly session; a cut with an open waiter, a reader and a wait_closed() pending *)
 Example C09_example_orderly :
